@@ -421,40 +421,62 @@ Qed.
 
 (** ======================= the precompile call ======================= *)
 
-(** unwinding plain entries is monotone for the body-mode relation (stores may differ) *)
-Lemma rel_unwind_plain sc es : forall s s' j,
-  rel false sc s s' -> journal s = es ++ j -> Forall plain es -> repaired (cf s) = true ->
+(** the PrecompileCalled entry whose cached-object set is [sc] is in the journal *)
+Definition PIn (sc : addr -> bool) (j : list entry) : Prop := exists sv sd, In (EPrecompile sv sd sc) j.
+
+(** unwinding entries that sit ABOVE that entry is monotone for the body-mode relation (stores may
+    differ): objects in [sc] are cached on both sides, createObject entries above the snapshot concern
+    addresses outside [sc], nested snapshots only evict objects that they did not see *)
+Lemma rel_unwind_body sc es : forall s s' j,
+  rel false sc s s' -> WFJ s -> journal s = es ++ j -> PIn sc j ->
   rel false sc (unwind_k (length es) s) (unwind_k (length es) s').
 Proof.
-  induction es as [|e es IH]; intros s s' j HR Hj Hp Hrep; simpl; [exact HR|].
-  inversion Hp as [|? ? Hpe Hpes]; subst.
-  simpl in Hj.
+  induction es as [|e es IH]; intros s s' j HR HW Hj HP; simpl; [exact HR|].
+  simpl in Hj. pose proof HW as (Hwf & Hord & Hrep). destruct HP as (sv & sd & Hin).
   assert (H1 : rel false sc (pop_undo s) (pop_undo s')).
-  { eapply rel_pop_undo; eauto. destruct e; simpl in *; auto; contradiction. }
-  eapply IH; [exact H1 | apply (pop_undo_journal s e (es ++ j) Hj) | exact Hpes | rewrite pop_undo_cf; exact Hrep].
+  { eapply rel_pop_undo; eauto. rewrite Hj in Hord.
+    destruct e; simpl in *; auto.
+    - right. destruct Hord as [Hc _]. apply (Hc sv sd sc). apply in_or_app. right; exact Hin.
+    - intros a _ Hs. eapply Hwf; [rewrite Hj; left; reflexivity | exact Hs]. }
+  eapply IH; [exact H1 | apply WFJ_pop_undo; exact HW | apply (pop_undo_journal s e (es ++ j) Hj) | exists sv, sd; exact Hin].
 Qed.
 
 Definition domsub (sc : addr -> bool) (s : sdb) : Prop := forall a, sc a = true -> objs s a <> None.
 
-(** body-mode op_ok: pushes only plain entries; unwinding them gives a body-mode refinement *)
+Lemma domsub_of_WF sc s : WFJ s -> PIn sc (journal s) -> domsub sc s.
+Proof. intros (W&_) (sv&sd&Hin) a Ha. eapply W; eauto. Qed.
+
+(** body-mode op_ok (inside a precompile body, above its PrecompileCalled entry): only prepends
+    entries; unwinding them gives a body-mode refinement *)
 Definition bop_ok (sc : addr -> bool) (s s' : sdb) : Prop :=
-  WFJ s -> domsub sc s ->
-  exists es, journal s' = es ++ journal s /\ Forall plain es /\
-             rel false sc s (unwind_k (length es) s') /\ WFJ s' /\ domsub sc s'.
+  WFJ s -> PIn sc (journal s) ->
+  exists es, journal s' = es ++ journal s /\
+             rel false sc s (unwind_k (length es) s') /\ WFJ s'.
 
 Lemma bop_ok_refl sc s : bop_ok sc s s.
-Proof. intros HW HD. exists []. split; [reflexivity|]. split; [constructor|]. split; [apply rel_refl|]. split; assumption. Qed.
+Proof. intros HW HP. exists []. split; [reflexivity|]. split; [apply rel_refl|assumption]. Qed.
+
+Lemma PIn_app sc es j : PIn sc j -> PIn sc (es ++ j).
+Proof. intros (sv&sd&H). exists sv, sd. apply in_or_app. right; exact H. Qed.
 
 Lemma bop_ok_trans sc s s1 s2 : bop_ok sc s s1 -> bop_ok sc s1 s2 -> bop_ok sc s s2.
 Proof.
-  intros H1 H2 HW HD. destruct (H1 HW HD) as (es1 & J1 & P1 & R1 & W1 & D1).
-  destruct (H2 W1 D1) as (es2 & J2 & P2 & R2 & W2 & D2).
+  intros H1 H2 HW HP. destruct (H1 HW HP) as (es1 & J1 & R1 & W1).
+  assert (HP1 : PIn sc (journal s1)) by (rewrite J1; apply PIn_app; exact HP).
+  destruct (H2 W1 HP1) as (es2 & J2 & R2 & W2).
   exists (es2 ++ es1). split; [rewrite J2, J1, app_assoc; reflexivity|].
-  split; [apply Forall_app; auto|]. split; [|auto].
+  split; [|exact W2].
   rewrite app_length, unwind_k_add.
   eapply rel_trans; [exact R1|].
-  destruct W1 as (_&_&Hrep).
-  eapply rel_unwind_plain; [exact R2 | exact J1 | exact P1 | exact Hrep].
+  eapply rel_unwind_body; [exact R2 | exact W1 | exact J1 | exact HP].
+Qed.
+
+(** every full op_ok step is a body-mode step *)
+Lemma op_ok_bop sc s s' : op_ok s s' -> bop_ok sc s s'.
+Proof.
+  intros H HW HP. destruct (op_ok_suffix s s' H HW) as [es J]. destruct (H HW) as (L & HL & HW').
+  exists es. split; [exact J|]. split; [|exact HW'].
+  apply rel_weaken. rewrite <- (unwind_prefix es (journal s) (length (journal s)) s' J eq_refl). exact HL.
 Qed.
 
 (** SetBalanceWei on an account that exists: exactly one EBalance entry *)
@@ -491,7 +513,7 @@ Lemma bank_send_bop sc s f t amt : bop_ok sc s (bank_send s f t amt).
 Proof.
   unfold bank_send. destruct (cache s) as [c|] eqn:Hc; [|apply bop_ok_refl].
   destruct (_ || _) eqn:Hg; [apply bop_ok_refl|].
-  intros HW HD.
+  intros HW HP. pose proof (domsub_of_WF sc s HW HP) as HD.
   set (c1 := bank_move c f t amt).
   set (sA := with_cache s (Some c1)).
   set (bf := to_wei (bank_bal c1 f)). set (bt := to_wei (bank_bal c1 t)).
@@ -516,12 +538,11 @@ Proof.
   assert (JC : journal sC = [EBalance t (bal ot); EBalance f (bal of)] ++ journal s).
   { subst sC. rewrite (set_balance_journal sB t bt ot Ht), JB. reflexivity. }
   exists [EBalance t (bal ot); EBalance f (bal of)].
-  split; [exact JC|]. split; [repeat constructor|]. split; [|split; [exact HWC|]].
-  - eapply rel_trans; [apply (rel_body_with_cache sc s (Some c1) HD)|]. fold sA.
-    apply rel_weaken.
-    replace (unwind_k (length [EBalance t (bal ot); EBalance f (bal of)]) sC) with (unwind (length (journal sA)) sC); [exact HL|].
-    apply (unwind_prefix _ (journal s)); [exact JC | reflexivity].
-  - intros a Ha. subst sC sB. apply set_balance_objs_mono, set_balance_objs_mono. subst sA. sdb_simp. apply HD, Ha.
+  split; [exact JC|]. split; [|exact HWC].
+  eapply rel_trans; [apply (rel_body_with_cache sc s (Some c1) HD)|]. fold sA.
+  apply rel_weaken.
+  replace (unwind_k (length [EBalance t (bal ot); EBalance f (bal of)]) sC) with (unwind (length (journal sA)) sC); [exact HL|].
+  apply (unwind_prefix _ (journal s)); [exact JC | reflexivity].
 Qed.
 
 Lemma run_sends_bop sc sends : forall s, bop_ok sc s (run_sends sends s).
@@ -646,9 +667,10 @@ Proof.
       split; [|intros H; contradiction]. destruct (accs (cur_store s) x); [apply ole_refl|exact I].
 Qed.
 
-Lemma precompile_call_ok s sends fails : op_ok s (precompile_call s sends fails).
+Lemma pc_shell_ok s F fails :
+  (forall s0, bop_ok (snap_sc s) s0 (F s0)) -> op_ok s (pc_shell s F fails).
 Proof.
-  intros HW. pose proof HW as (_&_&Hrep).
+  intros HF HW. pose proof HW as (_&_&Hrep).
   set (n := length (journal s)).
   set (s1 := precompile_snapshot s).
   assert (J1 : journal s1 = snap_entry s :: journal s) by apply snapshot_journal.
@@ -670,7 +692,7 @@ Proof.
     - apply snapshot_cf.
     - unfold s1. rewrite snapshot_aux. apply auxeq_refl.
     - intros x o Ho. unfold s1. rewrite snapshot_objs. exact Ho. }
-  unfold precompile_call. fold n s1.
+  unfold pc_shell. fold n s1.
   assert (Hrev : forall sX, (n <= length (journal sX))%nat -> le s (unwind n sX) -> WFJ sX ->
                  (length (journal s) <= length (journal (unwind n sX)))%nat /\
                  le s (unwind (length (journal s)) (unwind n sX)) /\ WFJ (unwind n sX)).
@@ -697,11 +719,10 @@ Proof.
       - intros x o Ho. apply Hkeep. unfold s1. rewrite snapshot_objs. exact Ho. }
     set (sF := commit_cache s1).
     assert (HWF : WFJ sF) by (apply WFJ_commit_cache; exact HW1).
-    assert (HDF : domsub (snap_sc s) sF).
-    { intros a Ha. destruct HWF as (W&_). eapply W; [|exact Ha].
-      change (journal sF) with (journal s1). rewrite J1. left. reflexivity. }
-    destruct (run_sends_bop (snap_sc s) sends sF HWF HDF) as (es & J2 & P2 & R2 & W2 & D2).
-    set (s2 := run_sends sends sF) in *.
+    assert (HPF : PIn (snap_sc s) (journal sF)).
+    { change (journal sF) with (journal s1). rewrite J1. exists (cur_store s), (dirt s). left. reflexivity. }
+    destruct (HF sF HWF HPF) as (es & J2 & R2 & W2).
+    set (s2 := F sF) in *.
     assert (HL2 : le s (unwind n s2)).
     { apply (Hcore sF s2 es); [| | | | | exact J2 | exact R2].
       - change (journal sF) with (journal s1). exact J1.
@@ -718,52 +739,102 @@ Proof.
     + split; [exact Hlen2|]. split; [exact HL2 | exact W2].
 Qed.
 
+
+Lemma precompile_call_ok s sends fails : op_ok s (precompile_call s sends fails).
+Proof. apply pc_shell_ok. intros s0. apply run_sends_bop. Qed.
+
 (** ======================= all scripts ======================= *)
 Fixpoint psize (p : prog) : nat :=
   match p with
   | PFrame body _ => S (list_sum (map psize body))
+  | PPrecompile body _ => S (list_sum (map psize body))
   | _ => 1%nat
+  end.
+
+(** bank sends occur only as elements of precompile bodies (possibly nested deeper) *)
+Fixpoint nosend (p : prog) : bool :=
+  match p with
+  | OBankSend _ _ _ => false
+  | PFrame body _ => forallb nosend body
+  | PPrecompile _ _ => true
+  | _ => true
   end.
 
 Lemma run_frame body rv s :
   run (PFrame body rv) s = if rv then unwind (length (journal s)) (run_body body s) else run_body body s.
 Proof. reflexivity. Qed.
+Lemma run_precompile body fails s : run (PPrecompile body fails) s = pc_shell s (run_body body) fails.
+Proof. reflexivity. Qed.
 Lemma run_body_cons p t s : run_body (p :: t) s = run_body t (run p s).
 Proof. reflexivity. Qed.
 Lemma run_body_nil s : run_body [] s = s. Proof. reflexivity. Qed.
 
-Lemma run_ok_aux n : forall p s, (psize p <= n)%nat -> op_ok s (run p s).
+Lemma inc_state_ok s a k d : op_ok s (inc_state s a k d).
+Proof. apply set_state_ok. Qed.
+
+(** every script is a body-mode step; scripts whose bank sends are inside precompile bodies are
+    full steps *)
+Lemma run_both n : forall p s, (psize p <= n)%nat ->
+  (forall sc, bop_ok sc s (run p s)) /\ (nosend p = true -> op_ok s (run p s)).
 Proof.
   induction n as [|n IH]; intros p s Hn.
   - destruct p; simpl in Hn; lia.
-  - destruct p; try (simpl; first
+  - assert (Hsimple : forall s', run p s = s' -> op_ok s s' ->
+              (forall sc, bop_ok sc s (run p s)) /\ (nosend p = true -> op_ok s (run p s))).
+    { intros s' E H. rewrite E. split; [intros sc; apply op_ok_bop; exact H | intros _; exact H]. }
+    assert (Hbodyb : forall l s0 sc, (list_sum (map psize l) <= n)%nat -> bop_ok sc s0 (run_body l s0)).
+    { induction l as [|x t IHl]; intros s0 sc Hl; [apply bop_ok_refl|].
+      rewrite run_body_cons. simpl in Hl.
+      apply (bop_ok_trans sc s0 (run x s0)); [apply (IH x); lia | apply IHl; lia]. }
+    destruct p; try (apply (Hsimple _ eq_refl); cbn [run]; first
       [ apply add_balance_ok | apply sub_balance_ok | apply set_nonce_ok | apply set_code_ok | apply set_state_ok
       | apply selfdestruct_ok | apply evm_create_ok | apply add_log_ok | apply set_refund_ok | apply sub_refund_ok
-      | apply access_addr_ok | apply access_slot_ok | apply touch_ok | apply read_obs_ok | apply precompile_call_ok ]).
-    assert (Hbody : forall l s0, (list_sum (map psize l) <= n)%nat -> op_ok s0 (run_body l s0)).
-    { induction l as [|x t IHl]; intros s0 Hl.
-      - apply op_ok_refl.
-      - rewrite run_body_cons. simpl in Hl.
-        apply (op_ok_trans s0 (run x s0)); [apply (IH x); lia | apply IHl; lia]. }
-    cbn [psize] in Hn. rewrite run_frame.
-    assert (Hb : op_ok s (run_body body s)) by (apply Hbody; lia).
-    destruct reverted; [|exact Hb].
-    intros HW. destruct (Hb HW) as (L & HE & HW').
-    pose proof (unwind_len _ _ L) as Hl.
-    split; [lia|]. split; [|apply WFJ_unwind; exact HW'].
-    rewrite <- Hl at 1. rewrite unwind_id. exact HE.
+      | apply access_addr_ok | apply access_slot_ok | apply touch_ok | apply read_obs_ok | apply inc_state_ok ]).
+    + (* OBankSend *)
+      split; [intros sc; cbn [run]; apply bank_send_bop | intros H; discriminate].
+    + (* PFrame *)
+      cbn [psize] in Hn. rewrite run_frame. split.
+      * intros sc. assert (Hb : bop_ok sc s (run_body body s)) by (apply Hbodyb; lia).
+        destruct reverted; [|exact Hb].
+        intros HW HP. destruct (Hb HW HP) as (es & J & HR & HW').
+        exists []. split; [|split].
+        -- simpl. unfold unwind. rewrite unwind_k_journal, J, app_length.
+           replace (length es + length (journal s) - length (journal s))%nat with (length es) by lia.
+           rewrite skipn_app, skipn_all, Nat.sub_diag. reflexivity.
+        -- simpl. rewrite (unwind_prefix es (journal s) (length (journal s)) _ J eq_refl). exact HR.
+        -- apply WFJ_unwind; exact HW'.
+      * intros Hns. cbn [nosend] in Hns. rewrite forallb_forall in Hns.
+        assert (Hbody : forall l s0, (list_sum (map psize l) <= n)%nat -> (forall x, In x l -> nosend x = true) ->
+                  op_ok s0 (run_body l s0)).
+        { induction l as [|x t IHl]; intros s0 Hl Hx; [apply op_ok_refl|].
+          rewrite run_body_cons. simpl in Hl.
+          apply (op_ok_trans s0 (run x s0)).
+          - apply (IH x); [lia | apply Hx; left; reflexivity].
+          - apply IHl; [lia | intros y Hy; apply Hx; right; exact Hy]. }
+        assert (Hb : op_ok s (run_body body s)) by (apply Hbody; [lia | exact Hns]).
+        destruct reverted; [|exact Hb].
+        intros HW. destruct (Hb HW) as (L & HE & HW').
+        pose proof (unwind_len _ _ L) as Hl.
+        split; [lia|]. split; [|apply WFJ_unwind; exact HW'].
+        rewrite <- Hl at 1. rewrite unwind_id. exact HE.
+    + (* PPrecompile *)
+      cbn [psize] in Hn. rewrite run_precompile.
+      assert (H : op_ok s (pc_shell s (run_body body) fails)).
+      { apply pc_shell_ok. intros s0. apply Hbodyb. lia. }
+      split; [intros sc; apply op_ok_bop; exact H | intros _; exact H].
 Qed.
 
-Theorem run_ok p s : op_ok s (run p s).
-Proof. apply (run_ok_aux (psize p)). lia. Qed.
+Theorem run_ok p s : nosend p = true -> op_ok s (run p s).
+Proof. apply (run_both (psize p) p s). lia. Qed.
 
-Lemma run_body_ok body s : op_ok s (run_body body s).
-Proof. pose proof (run_ok (PFrame body false) s) as H. rewrite run_frame in H. exact H. Qed.
+Lemma run_body_ok body s : forallb nosend body = true -> op_ok s (run_body body s).
+Proof. intros H. pose proof (run_ok (PFrame body false) s H) as H1. rewrite run_frame in H1. exact H1. Qed.
 
 (** (P1) A reverted frame leaves a refinement of the state it started from. *)
-Theorem reverted_frame_invisible body s : WFJ s -> le s (run (PFrame body true) s) /\ WFJ (run (PFrame body true) s).
+Theorem reverted_frame_invisible body s :
+  forallb nosend body = true -> WFJ s -> le s (run (PFrame body true) s) /\ WFJ (run (PFrame body true) s).
 Proof.
-  intros HW. destruct (run_body_ok body s HW) as (L & HE & HW').
+  intros Hns HW. destruct (run_body_ok body s Hns HW) as (L & HE & HW').
   rewrite run_frame. split; [exact HE | apply WFJ_unwind; exact HW'].
 Qed.
 
